@@ -39,8 +39,9 @@ ASSUMPTIONS = [
     "sphere points are affinely independent with measured condition number <= ~1e4",
     "angles: (-2pi,2pi) for short_arc, [-pi,pi] for right_to_left / arc_include (what "
     "circle_angles = atan2 produces); gaps keep 1e-3 from the tie values",
-    "find_definite_isometry: only the use made by its single caller (one 1-d vector, no "
-    "force_oriented): orthogonal, first column = +v/|v|",
+    "find_definite_isometry: the use made by its single caller (one 1-d vector): orthogonal, "
+    "first column = +v/|v|; with force_oriented=True the same matrix up to the sign of its "
+    "last row, with positive determinant",
     "float64 only",
 ]
 
@@ -340,6 +341,18 @@ def body_find_definite(case, ctx):
     ctx.close("Q Q^T = I", Q @ Q.T, np.eye(n), rtol=0, atol=1e-13 * n)
     ctx.close("first column is +v/|v| (what hyperplane_coordinate_transform uses)", Q[:, 0],
               v / np.linalg.norm(v), rtol=0, atol=1e-13 * n)
+    # positive determinant on request, by the documented means: a reflection of the last row
+    Qo = np.asarray(utils.find_definite_isometry(v.copy(), force_oriented=True))
+    ctx.check(Qo.shape == (n, n), "shape (force_oriented)", got=Qo.shape)
+    ctx.close("force_oriented: Q Q^T = I", Qo @ Qo.T, np.eye(n), rtol=0, atol=1e-13 * n)
+    ctx.check(np.linalg.det(Qo) > 0, "force_oriented: positive determinant",
+              det=float(np.linalg.det(Qo)), n=n)
+    ctx.close("force_oriented changes at most the sign of the last row", Qo[:-1], Q[:-1],
+              rtol=0, atol=1e-13 * n)
+    ctx.close("force_oriented changes at most the sign of the last row (the last row)",
+              np.abs(Qo[-1]), np.abs(Q[-1]), rtol=0, atol=1e-13 * n)
+    if np.linalg.det(Q) < 0:
+        ctx.label("reflection-needed")
 
 
 @st.composite
@@ -742,7 +755,9 @@ def sphere_case(draw, circle=False):
         # points keeps full accuracy there)
         far = draw(st.sampled_from([1.0, 1.0, 1.0, 1e3, 1e5]))
         sph.append(dict(c=[far * draw(fl(-5.0, 5.0)) for _ in range(D)],
-                        r=draw(st.one_of(fl(0.1, 10.0), st.just(1.0))),
+                        # ordinary radii, and now and then a very small or a very large one
+                        r=draw(st.one_of(fl(0.1, 10.0), fl(0.1, 10.0), st.just(1.0),
+                                         st.sampled_from([1e-5, 3e-7, 1e4]))),
                         Q=draw(gen.orthogonal_matrix(D)),
                         noise=[draw(fl(-0.25, 0.25)) for _ in range((D + 1) * D)]))
     return dict(D=D, shape=shape, sph=sph, how=draw(st.sampled_from(["sphere", "circle"]))
@@ -999,8 +1014,24 @@ def body_circle_angles(case, ctx):
     off = np.array(case["offs"], dtype=float).reshape(shape + (k, 2))
     pts = c[..., None, :] + off
     _arc_labels(ctx, shape)
-    got = np.asarray(utils.circle_angles(c.copy(), pts.copy()))
+    c_arg, pts_arg = c.copy(), pts.copy()
+    got = np.asarray(utils.circle_angles(c_arg, pts_arg))
     ctx.check(got.shape == shape + (k,), "shape", got=got.shape)
+    # a helper that returns angles: the caller's centres and points are what they were, so
+    # the ordering helpers can be asked about the same arrays afterwards
+    ctx.check(np.array_equal(c_arg, c) and np.array_equal(pts_arg, pts),
+              "circle_angles leaves the caller's arrays unchanged")
+    ctx.close("circle_angles asked twice about the same arrays", np.asarray(
+        utils.circle_angles(c_arg, pts_arg)), got, rtol=0, atol=0)
+    # lattice points in integer-typed arrays
+    ci, pi_ = np.rint(c).astype(np.int64), np.rint(pts).astype(np.int64)
+    di = pi_ - ci[..., None, :]
+    if np.all(np.any(di != 0, axis=-1)):
+        ctx.label("integer-typed-arrays")
+        ctx.close("circle_angles of integer-typed centres and points",
+                  np.asarray(utils.circle_angles(ci.copy(), pi_.copy()), dtype=float),
+                  np.vectorize(math.atan2)(di[..., 1], di[..., 0]).reshape(shape + (k,)),
+                  rtol=0, atol=1e-15)
     d = pts - c[..., None, :]
     want = np.vectorize(math.atan2)(d[..., 1], d[..., 0]).reshape(shape + (k,))
     ctx.close("angle = atan2(y - cy, x - cx)", got, want, rtol=0, atol=1e-15)
